@@ -416,11 +416,11 @@ impl<'a, T: RealNumber, M: Matrix<T>, K: Kernel<T, M::RowVector>> Optimizer<'a, 
                     #[cfg(smartcore_verif)]
                     crate::verif::tick("svc-reprocess", || {
                         crate::verif::digest_words(self.sv.iter().flat_map(|v| {
-                            vec![
+                            IntoIterator::into_iter([
                                 v.index as u64,
                                 crate::verif::bits(v.alpha),
                                 crate::verif::bits(v.grad),
-                            ]
+                            ])
                         }))
                     });
                     self.reprocess(tol, &mut cache);
